@@ -284,6 +284,22 @@ Proof.
   intros [= <-]. apply multi_crates_wf. eapply parse_workspace_wf. exact E.
 Qed.
 
+(* the stages between the per-file parsers and the generators, collected *)
+Theorem multi_stages_keep_wf :
+  (forall pd im, pd_wf (with_imports pd im) = pd_wf pd) /\
+  (forall arrivals : list (str * parsed),
+     Forall (fun a => pd_wf (snd a) = true) arrivals -> Forall (fun c => pd_wf (snd c) = true) (collect arrivals)) /\
+  (forall ho_crate (cs : crates),
+     Forall (fun c => pd_wf (snd c) = true) cs -> Forall (fun c => pd_wf (snd c) = true) (order_imports ho_crate cs)) /\
+  (forall cs : crates,
+     Forall (fun c => pd_wf (snd c) = true) cs -> Forall (fun c => pd_wf (snd c) = true) (reconcile_aliases cs)) /\
+  (forall uc T ign ho_file ho_crate ws cs,
+     multi_file_crates uc T ign ho_file ho_crate ws = Ok cs -> Forall (fun c => pd_wf (snd c) = true) cs).
+Proof.
+  split; [exact with_imports_wf|]. split; [exact collect_wf|]. split; [exact order_imports_wf|].
+  split; [exact reconcile_aliases_wf|exact multi_file_crates_wf].
+Qed.
+
 Lemma multi_file_crates_total uc T ign ho_file ho_crate ws : exists cs, multi_file_crates uc T ign ho_file ho_crate ws = Ok cs.
 Proof. unfold multi_file_crates. destruct (parse_workspace_total uc T ign ho_file ws) as [arrivals ->]. cbn [bind]. eauto. Qed.
 
@@ -375,3 +391,122 @@ Proof.
   unfold multi_file_run. destruct (multi_file_crates_total uc T ign ho_file ho_crate ws) as [cs ->]. cbn [bind].
   destruct (first_parse_error cs); exact I.
 Qed.
+
+(* ====================================================================================== *)
+(* 3. witnesses                                                                              *)
+(* ====================================================================================== *)
+(* alpha/src/lib.rs:  #[typeshare] struct Item { kind: Kind, tags: Vec<Option<String>> }
+                      #[typeshare] enum Kind { Big, Small }
+                      mod m { #[typeshare] #[serde(tag = "t", content = "c")]
+                              enum Shape { Empty, Boxed(Box<u8>), Named { some_field: Item } } }
+   beta/src/lib.rs:   use alpha::Item;
+                      #[typeshare] struct Holder { item: Item }
+   app/src/main.rs:   use alpha::*;  use beta::Holder;  use foo;
+                      #[typeshare] struct App { holder: Holder, kind: Kind }
+                      #[typeshare] type Holders = Vec<Holder>;
+   ignored/lib.rs:    (not under any src: skipped) *)
+Definition m_entry (components : list str) (items : list item) (paths : list path) : ws_entry :=
+  {| we_path := components;we_file := {| fl_attrs := []; fl_items := items; fl_paths := paths; fl_marker := true |}; we_tstr := no_tstr |}.
+Definition m_struct (name : string) (fs : list field) : item := IStruct [a_ts] (lit name) [] (FNamed fs).
+Definition m_use (c n : string) : item := IUse (UPath (lit c) (UName (lit n))).
+
+Definition ws_three : list ws_entry :=
+  [ m_entry [lit "app"; lit "src"; lit "main.rs"]
+      [IUse (UPath (lit "alpha") UGlob); m_use "beta" "Holder"; IUse (UName (lit "foo"));
+       m_struct "App" [fld [] (lit "holder") (w_path "Holder" []); fld [] (lit "kind") (w_path "Kind" [])];
+       IType [a_ts] (lit "Holders") [] (w_path "Vec" [Some (w_path "Holder" [])])]
+      [[lit "typeshare"]; [lit "Holder"]; [lit "Kind"]; [lit "Vec"]];
+    m_entry [lit "ignored"; lit "lib.rs"] [m_struct "Lost" [fld [] (lit "a") t_u8]] [[lit "typeshare"]; [lit "u8"]];
+    m_entry [lit "beta"; lit "src"; lit "lib.rs"]
+      [m_use "alpha" "Item"; m_struct "Holder" [fld [] (lit "item") (w_path "Item" [])]]
+      [[lit "typeshare"]; [lit "Item"]];
+    m_entry [lit "alpha"; lit "src"; lit "lib.rs"]
+      [m_struct "Item" [fld [] (lit "kind") (w_path "Kind" []);
+                        fld [] (lit "tags") (w_path "Vec" [Some (w_path "Option" [Some (w_path "String" [])])])];
+       IEnum [a_ts] (lit "Kind") [] [w_variant "Big" FUnit; w_variant "Small" FUnit];
+       INest [IEnum [a_ts; a_tagc] (lit "Shape") []
+                [w_variant "Empty" FUnit;
+                 w_variant "Boxed" (FUnnamed [fld [] (lit "x") (w_path "Box" [Some t_u8])]);
+                 w_variant "Named" (FNamed [fld [] (lit "some_field") (w_path "Item" [])])]]]
+      [[lit "typeshare"]; [lit "Kind"]; [lit "Vec"]; [lit "Option"]; [lit "String"]; [lit "serde"]; [lit "Box"]; [lit "u8"]; [lit "Item"]] ].
+
+Definition idl {A} (l : list A) : list A := l.
+
+(* the composed run on a fixed workspace: no --target-os, nothing ignored, insertion order at the hash containers *)
+Definition m_status {St} (gen : St -> str -> scoped -> parsed -> outcome (str * St)) (st0 : St) (l : lang) (ws : list ws_entry) :=
+  multi_file_status gen st0 uc_exec [] [] idl idl idl l ws.
+Definition m_files {St} (gen : St -> str -> scoped -> parsed -> outcome (str * St)) (st0 : St) (l : lang) (ws : list ws_entry) :=
+  all_generated (multi_file_run gen st0 uc_exec [] [] idl idl idl l ws).
+
+Definition m_go_cfg (acrs : list str) : go_config := w_go_acr acrs.
+
+(* the import lists of the plan: (module, name) per crate *)
+Definition m_plan_imports (l : lang) (ws : list ws_entry) : list (str * list (str * str)) :=
+  match multi_file_crates uc_exec [] [] idl idl ws with
+  | Ok cs => map (fun p => (op_crate p, scoped_pairs (op_imports p))) (multi_plan l idl cs)
+  | _ => []
+  end.
+
+(* NON-VACUITY: the three crates (the fourth file is outside any src) are parsed, collected in crate order alpha,
+   app, beta, every crate has the front end's shape and no parse error; the plan gives app the imports of alpha's
+   three types (the glob) and beta's Holder, beta the import of alpha's Item; the composed run completes with all
+   three files generated (non-empty) in all six languages - in Go with the acronym list ["id"; "aé"]: the input is
+   ASCII, so no panic although an acronym is not *)
+Example multi_workspace_pipeline_nonvacuous :
+  (match multi_file_crates uc_exec [] [] idl idl ws_three with
+   | Ok cs => map fst cs = [lit "alpha"; lit "app"; lit "beta"] /\ forallb (fun c => pd_wf (snd c)) cs = true /\
+              first_parse_error cs = None /\ map (fun c => List.length (items_of (snd c))) cs = [3; 2; 1]%nat
+   | _ => False
+   end) /\
+  m_plan_imports TypeScript ws_three =
+    [(lit "alpha", []);
+     (lit "app", [(lit "alpha", lit "Item"); (lit "alpha", lit "Kind"); (lit "alpha", lit "Shape"); (lit "beta", lit "Holder")]);
+     (lit "beta", [(lit "alpha", lit "Item")])] /\
+  m_files (ts_multi_gen uc_exec w_ts_cfg) [] TypeScript ws_three = ([lit "alpha.ts"; lit "app.ts"; lit "beta.ts"], true) /\
+  m_files (kt_multi_gen uc_exec C07Back.w_kt_cfg) tt Kotlin ws_three = ([lit "alpha.kt"; lit "app.kt"; lit "beta.kt"], true) /\
+  m_files (sc_multi_gen uc_exec (C07Back.w_sc_cfg (lit "p"))) tt Scala ws_three = ([lit "alpha.scala"; lit "app.scala"; lit "beta.scala"], true) /\
+  m_files (sw_multi_gen uc_exec C07Back.w_sw_cfg) false Swift ws_three = ([lit "Alpha.swift"; lit "App.swift"; lit "Beta.swift"], true) /\
+  m_files (py_multi_gen uc_exec w_py_cfg) py_empty_state Python ws_three = ([lit "alpha.py"; lit "app.py"; lit "beta.py"], true) /\
+  m_files (go_multi_gen uc_exec (m_go_cfg [lit "id"; lit "a" ++ [233%N]])) [] Go ws_three = ([lit "alpha.go"; lit "app.go"; lit "beta.go"], true) /\
+  go_multi_run_ascii uc_exec [] [] idl idl [] ws_three = true.
+Proof. vm_compute. repeat split. Qed.
+
+(* a parse error in one file of one crate: the run ends with that error (check_parse_errors), nothing is generated *)
+Definition ws_parse_error : list ws_entry :=
+  ws_three ++ [m_entry [lit "beta"; lit "src"; lit "bad.rs"]
+                 [m_struct "Bad" [fld [] (lit "a") (w_path "Vec" [])]] [[lit "typeshare"]; [lit "Vec"]]].
+Example multi_parse_error_is_diagnostic :
+  m_status (ts_multi_gen uc_exec w_ts_cfg) [] TypeScript ws_parse_error = Err (EUnsupportedType [lit "Vec"]) /\
+  m_files (ts_multi_gen uc_exec w_ts_cfg) [] TypeScript ws_parse_error = ([], false).
+Proof. vm_compute. repeat split. Qed.
+
+(* a generation error in the SECOND crate (a constant, Kotlin): alpha.kt was generated, app.kt failed, beta is not
+   reached; the status is the error naming the constant *)
+Definition ws_const : list ws_entry :=
+  ws_three ++ [m_entry [lit "app"; lit "src"; lit "k.rs"]
+                 [IConst [a_ts] (lit "X") (w_path "u32" []) (CELit (CInt (Some (Zpos 5))))] [[lit "typeshare"]; [lit "u32"]]].
+Example multi_generation_error_is_diagnostic :
+  m_status (kt_multi_gen uc_exec C07Back.w_kt_cfg) tt Kotlin ws_const = Err (EConstUnsupported (lit "X")) /\
+  match multi_file_run (kt_multi_gen uc_exec C07Back.w_kt_cfg) tt uc_exec [] [] idl idl idl Kotlin ws_const with
+  | Ok ([(f1, Writer.Generated (_ :: _)); (f2, Writer.GenFailed)], Err _) => f1 = lit "alpha.kt" /\ f2 = lit "app.kt"
+  | _ => False
+  end.
+Proof. vm_compute. repeat split. Qed.
+
+(* go.rs:594 IS reached through the multi-file run (recorded finding C07-go.rs:594):
+     gamma/src/lib.rs:  #[typeshare] struct AéX { a: u8 }
+   next to the three crates above, --lang go with uppercase_acronyms = ["aé"]: alpha.go, app.go and beta.go are
+   generated, then the run panics in crate gamma; the run is in the class (a crate is not ASCII); without the
+   acronym all four files are generated *)
+Definition ws_594 : list ws_entry :=
+  ws_three ++ [m_entry [lit "gamma"; lit "src"; lit "lib.rs"]
+                 [IStruct [a_ts] (lit "A" ++ [233%N] ++ lit "X") [] (FNamed [fld [] (lit "a") t_u8])] [[lit "typeshare"]; [lit "u8"]]].
+Example go_594_reached_multi :
+  m_status (go_multi_gen uc_exec (m_go_cfg [lit "a" ++ [233%N]])) [] Go ws_594 = Panic "go.rs:594" /\
+  go_multi_run_ascii uc_exec [] [] idl idl [] ws_594 = false /\
+  match multi_file_run (go_multi_gen uc_exec (m_go_cfg [lit "a" ++ [233%N]])) [] uc_exec [] [] idl idl idl Go ws_594 with
+  | Ok (files, Panic _) => map fst files = [lit "alpha.go"; lit "app.go"; lit "beta.go"; lit "gamma.go"]
+  | _ => False
+  end /\
+  m_files (go_multi_gen uc_exec (m_go_cfg [])) [] Go ws_594 = ([lit "alpha.go"; lit "app.go"; lit "beta.go"; lit "gamma.go"], true).
+Proof. vm_compute. repeat split. Qed.
